@@ -37,3 +37,11 @@ def cases(tier, seed, ctx=None):
                         ops += [G.Feed(rng.choice(TRAIL) or b"zz"), G.Turn]
                     yield ("sock", [G.NOPOL, ops, env, [4, len(h)]], "sock-pre%d" % (0 if k == 0 else (2 if k == len(segs) else 1)))
                     yield ("srv", [[[], [], [], 0, 0], ops, env + [[]], [4, len(h)]], "srv-pre%d" % (0 if k == 0 else (2 if k == len(segs) else 1)))
+
+    # the same over a TLS listener, the later bytes in a TLS record of their own that reaches the server in the same read (or one
+    # write of several KiB): exactly one 400, nothing routed - as over plain TCP (family tls, TLS vs plain)
+    for j, h in enumerate([b"BOGUS", b"GET / HTTP/1.2", b"GET //[::1/x HTTP/1.1\r\nHost: h", b"GET  / HTTP/1.1\r\nHost: h", b"PATCH /x HTTP/1.0"]):
+        tail = rng.choice([b"GET /second HTTP/1.1\r\nHost: h\r\n\r\n", b"x" * 200, b"BOGUS2\r\n\r\n"])
+        yield ("tls", [1, h + b"\r\n\r\n" + tail, len(h) + 4, -1], "tls-refused-then-second-record")
+        big = (b"GET /again HTTP/1.1\r\nHost: h\r\n\r\n" + b"junk " * 40) * rng.choice([30, 90])
+        yield ("tls", [1, h + b"\r\n\r\n" + big, rng.choice([0, len(h) + 4, 3]), rng.choice([-1, 15])], "tls-refused-then-several-KiB")
